@@ -123,10 +123,13 @@ func (ch *Channel) run() {
 		<-writerDone
 
 	case <-ch.ctx.Done():
+		// close the transport first, in order to unblock a writer
+		// that is stuck inside Write()
+		ch.rwc.Close()
+
 		close(writerTerminate)
 		<-writerDone
 
-		ch.rwc.Close()
 		<-readerDone
 	}
 
